@@ -615,7 +615,8 @@ func (c *Ctx) convert(from, to types.Type, x Value) Value {
 				for _, u := range s.Units() {
 					switch {
 					case u.D != nil:
-						c.Unsupported("[]byte of a string with decimal atoms")
+						// a decimal atom travels through a byte slice as one opaque element
+						el = append(el, AtomBytes{D: u.D})
 					case u.B != nil:
 						el = append(el, u.B)
 					default:
@@ -664,6 +665,8 @@ func (c *Ctx) convert(from, to types.Type, x Value) Value {
 		var segs []Seg
 		for _, e := range s.Elems {
 			switch e := e.(type) {
+			case AtomBytes:
+				segs = append(segs, Seg{D: e.D})
 			case int64:
 				if eb.Kind() == types.Uint8 {
 					segs = append(segs, Seg{S: string([]byte{byte(e)})})
